@@ -1151,8 +1151,10 @@ class Object( object ):
                 assert 'element' not in data.path['segment'][-1], \
                     "%s path must identify Attribute" % ( nam )
                 _,_,a_id	= resolve( data.path, attribute=True ) # numeric, or by (Tag) name
+                data.status	= 0x05		# Request Path destination unknown
                 assert str(a_id) in self.attribute, \
                     "%s specified non-existent Attribute" % ( nam )
+                data.status	= 0x08
                 assert not ( self.attribute[str(a_id)].mask & Attribute.MASK_GA_SNG ),\
                     "Attribute not available for %s request" % ( nam )
                 if data.service == self.GA_SNG_RPY:
